@@ -166,6 +166,7 @@ def run(repo, rep, tier):
     mof = repo.module(MOF)
     _r7_instance_values(repo, rep)
     _r8_symbols_consumed(repo, rep)
+    _r9_array_braces(repo, rep)
     # ---- R6 ---------------------------------------------------------------
     for cname in MOF_CLASSES:
         cls = repo.cls(OBJ, cname)
@@ -773,3 +774,53 @@ def _r8_symbols_consumed(repo, rep):
     if r8.sites < 150:
         raise AnalysisError('C08.R8: only %d value-carrying symbols'
                             % r8.sites)
+
+
+def _r9_array_braces(repo, rep):
+    """C08.R9: tomof() writes the `{ ... }` array initialiser only for a
+    value that is a list.  Whether the element is *declared* as an array
+    (is_array) is a different question: an array-typed property of an
+    instance whose whole value is NULL must be written `= NULL`; written as
+    `{ NULL }` it recompiles to the one-element array [None]."""
+    from ..cfg import stmt_facts, GuardWalker
+    r9 = rep.rule('C08.R9', 'the array initialiser braces are written for '
+                  'list values only')
+    obj = repo.module(OBJ)
+    for f in obj.all_funcs():
+        if 'tomof' not in f.name:
+            continue
+        for st, (fs, _t) in stmt_facts(f.node).items():
+            if not (isinstance(st, ast.Expr) and
+                    isinstance(st.value, ast.Call) and
+                    isinstance(st.value.func, ast.Attribute) and
+                    st.value.func.attr == 'append' and st.value.args):
+                continue
+            c = const_str(st.value.args[0])
+            if c is None or '{' not in c or '\n' in c:
+                continue
+            r9.sites += 1
+            r9.functions.add(f.fq)
+            ok = False
+            for t, p in fs:
+                for a, q in GuardWalker._atoms(t, p):
+                    if q and isinstance(a, ast.Call) and \
+                            dotted(a.func) == 'isinstance' and \
+                            len(a.args) == 2 and \
+                            set(norm(x) for x in (
+                                a.args[1].elts if isinstance(
+                                    a.args[1], ast.Tuple) else [a.args[1]])
+                                ) <= {'list', 'tuple'}:
+                        ok = True
+            r9.ob(ok, f.qualname, {'guards': [norm(t, 50) for t, _p in fs]})
+            if not ok:
+                rep.finding(r9, f.qualname, norm(st, 60), 'braces-not-by-value',
+                            OBJ, st.lineno,
+                            'the opening brace of the array initialiser is '
+                            'written without an isinstance(value, list) test '
+                            '(conditions: %s): an array-typed element whose '
+                            'value is NULL is written as `{ NULL }`, which '
+                            'recompiles to [None] instead of NULL'
+                            % ([norm(t, 40) for t, _p in fs] or 'none'))
+    if r9.sites < 3:
+        raise AnalysisError('C08.R9: only %d array initialiser sites'
+                            % r9.sites)
